@@ -108,9 +108,11 @@ theorem tightenAffine_sound (ρ : String → K) (an : Analyzer (Ext K)) (c : Con
   exact tightenAffineForm_inBox an f c.cmp S h1 h2 hbox
 
 example : ∃ (ρ : String → K) (c : Constraint (Ext K)) (f : AffineForm (Ext K)),
-    AffineForm.fromConstraint c = some f ∧ Holds ρ c :=
-  ⟨fun _ => 1, ⟨"r", .bin .mul (.num (.fin 3)) (.var "x"), .le, .num (.fin 4), false⟩, _, rfl,
-   3, 4, by simp [eval, binVal], by simp [eval], by simp [cmpHolds]; norm_num⟩
+    AffineForm.fromConstraint c = some f ∧ Holds ρ c := by
+  refine ⟨fun _ => 1, ⟨"r", .bin .mul (.num (.fin 3)) (.var "x"), .le, .num (.fin 4), false⟩,
+    ⟨[("x", .fin 3)], .fin (-4)⟩, ?_, 3, 4, by simp [eval, binVal], by simp [eval], by simp [cmpHolds]; norm_num⟩
+  simp [AffineForm.fromConstraint, AffineForm.fromExp, Exp.asNum, AffineForm.scale, AffineForm.scaleCoeffs,
+    AffineForm.merge, AffineForm.mergeCoeffs, Ext.mul, Ext.add, Ext.neg, Ext.eq, Ext.isFinite]
 
 /-! ### the work-list -/
 
